@@ -500,7 +500,7 @@ func genReq(t *rapid.T) c20Req {
 		return sp(vals[i])
 	}
 	r.Similarity = opt("similarity", []string{"exactflags", "exactlines", "anypointer", "anyvalue", "alike", "ANYVALUE", "", "any value"})
-	r.Augment = opt("augment", []string{"0", "1", "2", "-1", "x", ""})
+	r.Augment = opt("augment", []string{"0", "1", "2", "-1", "x", "", "true", "01", "f"})
 	r.Maxmem = opt("maxmem", []string{"1", "1048576", "2097152", "67108864", "-5", "x", "", "1e6"})
 	return r
 }
@@ -736,9 +736,52 @@ func c20Grid() error {
 		}
 		return sp(v)
 	}
+	// The documented way to change a default: a wrapper that overrides the form values and
+	// delegates. The override travels in a header of the test request.
+	wrapped := httptest.NewServer(http.HandlerFunc(func(rw http.ResponseWriter, req *http.Request) {
+		_ = req.ParseForm()
+		if ov, err := url.ParseQuery(req.Header.Get("X-Override")); err == nil {
+			for k, v := range ov {
+				req.Form[k] = v
+			}
+		}
+		webstack.SnapshotHandler(rw, req)
+	}))
+	defer closeServer(wrapped)
 	n := 0
+	for i, ov := range []c20Req{
+		{Method: "GET", Similarity: sp("bogus")}, {Method: "GET", Augment: sp("7")}, {Method: "GET", Maxmem: sp("abc")},
+		{Method: "GET", Similarity: sp("anyvalue"), Augment: sp("0")}, {Method: "GET", Augment: sp("0"), Maxmem: sp("2097152")},
+	} {
+		// the URL carries the opposite kind of value for the same parameters
+		u := c20Req{Method: "GET", Augment: sp("0")}
+		if ov.expect() == 200 {
+			u = c20Req{Method: "GET", Similarity: sp("bogus"), Augment: sp("x"), Maxmem: sp("y")}
+			if ov.Similarity == nil {
+				u.Similarity = nil
+			}
+			if ov.Augment == nil {
+				u.Augment = nil
+			}
+			if ov.Maxmem == nil {
+				u.Maxmem = nil
+			}
+		}
+		req, _ := http.NewRequest("GET", wrapped.URL+"/debug?"+u.query(), nil)
+		req.Header.Set("X-Override", ov.query())
+		resp, err := client.Do(req)
+		if err != nil {
+			return fmt.Errorf("%swrapped GET %d: %v", timeoutIsHarness(err), i, err)
+		}
+		body, _ := io.ReadAll(resp.Body)
+		resp.Body.Close()
+		if err := c20CheckResponse(&ov, resp.StatusCode, resp.Header.Get("Content-Type"), body, len(w.stable), runtime.NumGoroutine()+64); err != nil {
+			return fmt.Errorf("a wrapper overrides the form values with ?%s (the URL says ?%s): %v", ov.query(), u.query(), err)
+		}
+		n++
+	}
 	for _, mm := range []string{"-", "", "1048576", "1", "x", "1e6", "0x10"} {
-		for _, au := range []string{"-", "", "0", "1", "2", "x", "-1"} {
+		for _, au := range []string{"-", "", "0", "1", "2", "x", "-1", "true", "01", "+1"} {
 			for _, si := range []string{"-", "", "anyvalue", "exactflags", "alike"} {
 				r := c20Req{Method: "GET", Maxmem: opt(mm), Augment: opt(au), Similarity: opt(si)}
 				resp, err := client.Get(srv.URL + "/debug?" + r.query())
